@@ -217,6 +217,7 @@ func regenInstances(repoDir, tier string, sink *report.Sink) ([]*gen.Instance, e
 		{Name: "corpus-modifier", Src: filepath.Join(vd, "corpus_mod"), Module: "example.com/corpusmod", Cmds: [][]string{{".", "-genmode", "modifier", "./..."}}, VRules: true, Modifier: true},
 		{Name: "corpus-go122", Src: filepath.Join(vd, "corpus_go122"), Module: "example.com/corpusgo122", Go: "1.22", Cmds: [][]string{{".", "./..."}}, VRules: true},
 		{Name: "corpus-sourcemap", Src: filepath.Join(vd, "corpus"), Module: "example.com/corpus", Cmds: [][]string{{".", "-genmode", "source-map", "./..."}}, VRules: tier == "thorough"},
+		{Name: "corpus-reject", Src: filepath.Join(vd, "corpus_reject"), Module: "example.com/reject", Cmds: [][]string{{".", "./..."}}, Reject: true},
 	}
 	if tier == "thorough" {
 		corpora = append(corpora,
@@ -232,7 +233,13 @@ func regenInstances(repoDir, tier string, sink *report.Sink) ([]*gen.Instance, e
 	sink.SetFact("regen.generated_files", res.Files)
 	sink.SetFact("regen.packages", res.Packages)
 	sink.SetFact("regen.instances", len(res.Instances))
+	for _, rc := range res.Rejects {
+		sink.Check(rc.Bad == "", "V25", rc.Key+"|refused with a positioned diagnostic, nothing written", rc.Key, rc.How, "a program cff must refuse is not refused properly: "+rc.Bad)
+	}
 	for _, c := range corpora {
+		if c.Reject {
+			continue
+		}
 		failed := ""
 		for _, e := range res.GenErrs {
 			if strings.HasPrefix(e, c.Name+":") {
